@@ -308,8 +308,32 @@ def run(tier, seed, replay=None):
         if o.get("res") and (len(o.get("matches") or []) < nvis or o.get("more") or o.get("skip")):
             distinct.add(pk.sha(json.dumps([o.get("query"), o.get("limit"), o.get("skip"), o.get("files"), r.case.get("ids")], sort_keys=True)))
 
+    def subquery_referred(case):
+        """a shrink candidate must stay inside the generated language: filters of the sub-query only together with a
+        relating term at the top-level AND whose every alternative refers to it (the engine does not evaluate a
+        sub-query nobody refers to; what such a query should mean is not defined)"""
+        q = case.get("query") or {}
+        txt = json.dumps(q)
+        if '"sq"' not in txt:
+            return True
+        tops = q.get("k", []) if q.get("op") == "and" else [q]
+        for t in tops:
+            if t.get("op") == "not" and len(t.get("k", [])) == 1:
+                t = t["k"][0]
+            if t.get("op") != "term" or t.get("sq"):
+                continue
+            if t.get("p") is not None:
+                if t["p"] and all(str(x).startswith("@sub:") for x in t["p"]):
+                    return True
+                continue
+            if "sub:" in json.dumps(t):
+                return True
+        return False
+
     def still_fails(kinds):
         def f(cand):
+            if not subquery_referred(cand):
+                return False
             rr = tie.run_one(cand)
             return bool(set(failure_kinds(rr)) & set(kinds))
         return f
